@@ -67,6 +67,7 @@ void compare(const Observed &o, const Expect &e, size_t limit) {
     else if (!o.ended || o.threw) dsim::fail("C13.end", "body ends after %zu values; consumer saw ended=%d threw=%d", e.vals.size(), (int)o.ended, (int)o.threw);
 }
 
+bool g_stored_next = false;     // drawn per run in dsim_scenario
 // ---- consumers in normal code: styles 0 next()+value(), 1 gen().wait(), 2 gen() has_value, 3 fut << gen ; whole-run style: iterator / range-for
 template <typename G> void consume_normal(G &gen, const int *style, size_t limit, Observed &o, bool with_arg) {
     long argc = 1000;
@@ -75,7 +76,12 @@ template <typename G> void consume_normal(G &gen, const int *style, size_t limit
         try {
             switch (style[i % 12]) {
             case 0: {
-                bool ok; if constexpr (G::arg_is_void) ok = gen.next(); else ok = gen.next(arg);
+                bool ok;
+                if (g_stored_next) {     // the result of next() kept in a variable and tested more than once: only the first test steps the generator
+                    auto n = [&] { if constexpr (G::arg_is_void) return gen.next(); else return gen.next(arg); }();
+                    ok = n; bool again = n; bool neg = !n;
+                    if (again != ok || neg == ok) dsim::fail("C13.stored_next", "a stored next() answered %d, then %d, then operator! %d", (int)ok, (int)again, (int)neg);
+                } else { if constexpr (G::arg_is_void) ok = gen.next(); else ok = gen.next(arg); }
                 if (!ok) { o.ended = true; break; }
                 o.vals.push_back(gen.value()); break; }
             case 1: {
@@ -184,6 +190,7 @@ void dsim_scenario() {
     int mode = dsim::choose(5);               // 0 normal code, mixed styles; 1 range-for; 2 coroutine consumer; 3 generator with argument (normal code); 4 event-driven (callback awaiter)
     bool coroutine_consumer = mode == 2;
     int style[12]; for (int i = 0; i < 12; i++) style[i] = dsim::choose(4);
+    g_stored_next = dsim::flip();
     bool all_nonblocking = true; for (int i = 0; i < 12; i++) if (style[i] == 0) all_nonblocking = false;
     if (mode == 4) all_nonblocking = true;
     long v = 1;
@@ -205,7 +212,7 @@ void dsim_scenario() {
     size_t limit = (dsim::choose(4) == 3 && !e.vals.empty()) ? dsim::choose((unsigned)e.vals.size()) : 1000;    // early destruction while parked at a yield (strictly fewer values than the body yields)
     dsim::plan_note("mode=%d script:", mode);
     for (int k = 0; k < sc.n; k++) dsim::plan_note(" %s", sc.kind[k] == Y ? "Y" : sc.kind[k] == AWAIT_READY ? "ar" : sc.kind[k] == AWAIT_OTHER ? "ao" : sc.kind[k] == AWAIT_SELF ? "as" : sc.kind[k] == THROW ? "THROW" : "RET");
-    dsim::plan_note(" styles="); for (int i = 0; i < 6; i++) dsim::plan_note("%d", style[i]); dsim::plan_note(" limit=%zu", limit);
+    dsim::plan_note(" styles="); for (int i = 0; i < 6; i++) dsim::plan_note("%d", style[i]); dsim::plan_note(" stored_next=%d", (int)g_stored_next); dsim::plan_note(" limit=%zu", limit);
     std::thread helper([&] {        // completes the awaits that "another thread" completes
         for (;;) {
             bool stop = dsim::cell_get(STOP);
